@@ -20,7 +20,12 @@ Utils == [ u0 |-> <<>>,
            u5 |-> [x \in {"U1"} |-> U({R("U1", "rel")}, {})],
            u6 |-> [x \in {"U1"} |-> U({R("U1", "nthof")}, {})],
            u7 |-> [x \in {"U1"} |-> U({R("U9", "same")}, {})],
-           u8 |-> [x \in {"U1"} |-> U({}, {"B"})] ]
+           u8 |-> [x \in {"U1"} |-> U({}, {"B"})],
+           \* rule objects with several keys: a reference next to a composite rule, `all` next to `any`
+           u9  |-> ("U1" :> U({R("U3", "same"), R("U2", "same")}, {})) @@ ("U2" :> U({R("U1", "same")}, {})) @@ ("U3" :> U({}, {})),
+           u10 |-> ("U1" :> U({R("U2", "same"), R("U3", "same")}, {})) @@ ("U2" :> U({}, {})) @@ ("U3" :> U({R("U1", "same")}, {})),
+           u11 |-> ("U1" :> U({R("U2", "same"), R("U9", "same")}, {})) @@ ("U2" :> U({}, {})),
+           u12 |-> ("U1" :> U({R("U2", "same"), R("U3", "same")}, {})) @@ ("U2" :> U({}, {})) @@ ("U3" :> U({R("U2", "same")}, {})) ]
 Cons == [ c0 |-> [keys |-> {}, vars |-> {}], c1 |-> [keys |-> {"A"}, vars |-> {}],
           c2 |-> [keys |-> {"B"}, vars |-> {}], c3 |-> [keys |-> {"A"}, vars |-> {"C"}] ]
 T(src, rw) == [src |-> src, rewriters |-> rw]
